@@ -8,6 +8,7 @@ import (
 	didtypes "github.com/SaoNetwork/sao/x/did/types"
 	nodetypes "github.com/SaoNetwork/sao/x/node/types"
 	saotypes "github.com/SaoNetwork/sao/x/sao/types"
+	"github.com/cosmos/cosmos-sdk/crypto/keys/ed25519"
 	"github.com/cosmos/cosmos-sdk/crypto/keys/secp256k1"
 	sdk "github.com/cosmos/cosmos-sdk/types"
 	banktypes "github.com/cosmos/cosmos-sdk/x/bank/types"
@@ -311,6 +312,16 @@ func (s *Sim) BuildMsg(a *Action) sdk.Msg {
 		return &stakingtypes.MsgUndelegate{DelegatorAddress: s.bech(a.Creator), ValidatorAddress: s.valStr(a.Target), Amount: sdk.NewInt64Coin(s.W.Cfg.Denom, a.Amount)}
 	case "redelegate":
 		return &stakingtypes.MsgBeginRedelegate{DelegatorAddress: s.bech(a.Creator), ValidatorSrcAddress: s.valStr(a.Target), ValidatorDstAddress: s.valStr(a.Target2), Amount: sdk.NewInt64Coin(s.W.Cfg.Denom, a.Amount)}
+	case "create_validator":
+		// a new validator operated by account a.Creator: its self-delegation is the first delegation
+		// the validator ever gets (the validator has no shares when the delegation hooks run)
+		pk := ed25519.GenPrivKeyFromSecret([]byte(fmt.Sprintf("generated-validator-%d", a.Creator))).PubKey()
+		m, err := stakingtypes.NewMsgCreateValidator(sdk.ValAddress(s.acct(a.Creator).Addr), pk, sdk.NewInt64Coin(s.W.Cfg.Denom, a.Amount),
+			stakingtypes.Description{Moniker: fmt.Sprintf("gen-%d", a.Creator)}, stakingtypes.NewCommissionRates(sdk.ZeroDec(), sdk.ZeroDec(), sdk.ZeroDec()), sdk.OneInt())
+		if err != nil {
+			panic(err)
+		}
+		return m
 	case "gov_param":
 		// a governance proposal that changes one module parameter (written by x/params, not by the module's keeper)
 		content := paramproposal.NewParameterChangeProposal("change "+a.Extra["key"], "generated", []paramproposal.ParamChange{{Subspace: a.Extra["subspace"], Key: a.Extra["key"], Value: a.Extra["value"]}})
